@@ -3,6 +3,7 @@ import RagcModel.Model.Packs
 import RagcModel.Model.StreamNames
 import RagcModel.Lemmas.StreamNames
 import RagcModel.Lemmas.Packs
+import RagcModel.Lemmas.Agc3Names
 import RagcModel.Props.C09
 import RagcModel.Props.C12
 /-!
@@ -76,20 +77,6 @@ theorem xname_not_fixed (g : Nat) : refName g ∉ fixedNames ∧ deltaName g ∉
 
 example : fixedNames.length = 7 := by decide
 
-theorem b64Encode_eq (n : Nat) : b64Encode n = intToBase64 n := by
-  induction n using Nat.strongRecOn with
-  | _ n ih =>
-    have hd : ∀ i, b64Digit i = digitAt i := by
-      intro i
-      unfold b64Digit digitAt
-      have : Ragc.Agc3.b64 = Ragc.Gen.b64Digits := by decide
-      rw [this]
-    unfold b64Encode intToBase64
-    by_cases h : n / 64 = 0
-    · simp only [h, ↓reduceDIte, hd]
-    · simp only [h, ↓reduceDIte, hd]
-      rw [ih (n / 64) (by omega)]
-
 /-- The decoder's naming (literal digit table) is the writer's naming (`stream_naming.rs`). -/
 theorem decoder_names_agree (g : Nat) :
     xName g .ref = refName g ∧ xName g .delta = deltaName g := by
@@ -97,6 +84,23 @@ theorem decoder_names_agree (g : Nat) :
 
 example : xName 77 .ref = [120, 68, 49, 114] := by
   simp [xName, b64Encode, b64Digit, Ragc.Agc3.b64, kindChar]
+
+/-- The decoder parses every canonical stream name back to its group and kind (so the `stream-name`
+rule `name = xName (parse name)` accepts exactly the names the writer can produce). -/
+theorem decoder_parses_names (g : Nat) (kd : Kind) : parseXName (xName g kd) = some (g, kd) :=
+  parseXName_xName g kd
+
+example : parseXName [120, 68, 49, 100] = some (77, .delta) := by decide
+
+/-- The decoder fetches parts from an array copy of the file; for every part inside the file (the
+directory check of `openBytesFixed`) this is `Container.readPartData`, the reader of C13. -/
+theorem part_reader_agrees (file : List Nat) (p : Ragc.Container.Part)
+    (hfit : p.off + p.size ≤ file.length) (hseek : p.off ≤ Ragc.Agc3.seekMax) (b : Ragc.Container.Blob) :
+    readPartA file.toArray p = .ok b ↔
+      Ragc.Container.readPartData Ragc.Container.readVarintFixed Ragc.Agc3.seekMax file p = .ok b :=
+  readPartA_eq file p hfit hseek b
+
+example : readPartA [9, 1, 7, 65, 66, 9].toArray ⟨1, 2⟩ = .ok ([65, 66], 7) := by rfl
 
 /-! ## constants -/
 
@@ -164,10 +168,6 @@ example : unpackEntry (packEntriesRaw [[0, 1, 2], [3]]) 0 = some [127] ∧
 
 /-! ## id ↦ (pack, entry) -/
 
-theorem entryAt_eq (packs : List (List (List Nat))) (p e : Nat) :
-    entryAt packs p e = (packs[p]?).bind (·[e]?) := by
-  unfold entryAt; cases packs[p]? <;> rfl
-
 /-- **Addressing.** Run the bookkeeping of `flush_pack_compress_only` over ANY sequence of deltas
 `ds` (empty ones and repeats included, over any number of calls), then the final partial flush of
 `finalize`. For the id handed to the `j`-th delta:
@@ -179,56 +179,6 @@ theorem entryAt_eq (packs : List (List (List Nat))) (p e : Nat) :
 
 and every pack but the last holds exactly 50 entries (`Filled`), the last between 1 and 50. The
 decoder's `entryAddress` is this rule. -/
-theorem packs_addressing_aux (lz : Bool) (ds : List (List Nat)) (r : PState × List Nat)
-    (hr : assignAll lz PState.init ds = r) (packs : List (List (List Nat))) (hpk : finish lz r.1 = packs) :
-    Filled 50 packs ∧
-    (∀ p, p + 1 < packs.length → ∃ pk, packs[p]? = some pk ∧ pk.length = 50) ∧
-    ∀ j (hj : j < ds.length),
-      (lz = true ∧ r.2.getD j 0 = 0 ∧ ds[j] = []) ∨
-      (1 ≤ r.2.getD j 0 ∧
-        entryAt packs (entryAddress (if lz then 16 else 0) (r.2.getD j 0)).1
-            (entryAddress (if lz then 16 else 0) (r.2.getD j 0)).2 = some ds[j] ∧
-        (lz = false → entryAt packs 0 0 = some [Ragc.Agc3.placeholder])) := by
-  obtain ⟨suffix, hinv, hall, _, hids⟩ := assignAll_spec lz ds PState.init (inv_init lz)
-  rw [hr] at hinv hall hids
-  obtain ⟨hfilled, hflat⟩ := finish_spec lz r.1 hinv
-  rw [hpk] at hfilled hflat
-  refine ⟨hfilled, fun p hp => filled_nonfinal 50 packs p hfilled hp, ?_⟩
-  intro j hj
-  have hidj := hids j hj
-  generalize r.2.getD j 0 = id at hidj ⊢
-  rcases hidj with h0 | ⟨h1, h2, h3⟩
-  · exact Or.inl h0
-  · right
-    refine ⟨h1, ?_⟩
-    generalize hA : allEntries lz r.1 = A at *
-    -- the position of the entry in the stream
-    have hlt : id - off lz < A.length := by
-      apply Classical.byContradiction
-      intro hc
-      rw [List.getElem?_eq_none (by omega)] at h3
-      cases h3
-    -- the packs hold the whole entry stream: an id ≥ 1 was handed out, so something was written
-    have hfl : packs.flatten = A := by
-      apply hflat
-      intro hw
-      have hnext := hinv.next
-      rw [hw, hA] at hnext
-      cases lz with
-      | true => simp only [off, if_true] at hnext hlt; omega
-      | false => simp only [off, Bool.false_eq_true, if_false, Nat.add_zero] at hnext hlt h2; omega
-    have haddr : (entryAddress (if lz then 16 else 0) id) = ((id - off lz) / 50, (id - off lz) % 50) := by
-      cases lz <;> simp [entryAddress, noRawGroups, packCard, off]
-    rw [haddr, entryAt_eq, filled_index 50 (by omega) packs _ hfilled (by rw [hfl]; exact hlt), hfl]
-    refine ⟨h3, ?_⟩
-    intro hlz
-    subst hlz
-    have h00 : (0 : Nat) / 50 = 0 ∧ (0 : Nat) % 50 = 0 := by decide
-    have := filled_index 50 (by omega) packs 0 hfilled (by rw [hfl]; omega)
-    rw [h00.1, h00.2] at this
-    rw [entryAt_eq, this, hfl, hall]
-    simp [allEntries, PState.init, pre, placeholderEntry, placeholder]
-
 theorem packs_addressing (lz : Bool) (ds : List (List Nat)) :
     let r := assignAll lz PState.init ds
     let packs := finish lz r.1
